@@ -14,17 +14,80 @@ from vsim.explore import run_once, explore_dfs
 from vsim.tracefile import BatchWriter
 
 NB = 16
-MINE = {"OutcomePreserved", "NoDuplicateRequest", "EventuallyTerminal"}
+# (an exception escaping a handler after the restart loses the execution just as silently as a dropped message)
+MINE = {"OutcomePreserved", "NoDuplicateRequest", "EventuallyTerminal", "NoEscapedException"}
 
 
 def scenario_set(thorough):
     base = {s["id"]: s for s in S.protocol_scenarios() + S.failure_scenarios()}
-    ids = ["pass-chain", "wait-chain", "choice", "task-chain", "task-task", "task-fails", "task-catch", "par-pass", "par-task-end",
+    ids = ["pass-chain", "wait-chain", "choice", "task-chain", "task-task", "task-fails", "task-catch", "task-retry", "par-pass", "par-task-end",
            "map-task", "map-task-mc1", "map-pass"]
     if thorough:
-        ids += ["task-retry", "two-execs", "par-task-next", "par-wait-task", "nested", "par-2step", "par-fail-unhandled",
+        ids += ["two-execs", "par-task-next", "par-wait-task", "nested", "par-2step", "par-fail-unhandled",
                 "map-fail-one", "par-inner-catch", "express-chain"]
     return [base[i] for i in ids]
+
+
+CRASH_MODEL_QUICK = ["task-chain", "task-fails", "par-pass"]
+CRASH_MODEL_THOROUGH = CRASH_MODEL_QUICK + ["wait-chain", "task-timeout", "task-retry", "map-pass", "pass-chain"]
+
+
+def crash_model_stage(thorough, base, work, add_model_run):
+    """Engine.tla with a crash budget of one: TLC explores EVERY crash point (between any two operations of any
+    handler) under EVERY schedule; the state graph is covered by paths and every path -- crash, redelivery and
+    restart included -- is driven through the real engine (checks/replay.py).  Zero drift means the model's
+    crash/redelivery semantics are this code's; the recorded runs join the traces validated against Trace.tla."""
+    import model
+    import replay as rp
+    from concurrent.futures import ThreadPoolExecutor
+    wd = os.path.join(work, "model")
+    os.makedirs(wd, exist_ok=True)
+    ids = CRASH_MODEL_THOROUGH if thorough else CRASH_MODEL_QUICK
+    out = {"scenarios": {}, "states": 0, "transitions": 0, "paths": 0, "paths_with_drift": 0, "crash_points_replayed": 0, "leads": []}
+
+    def one(sid):
+        s = base[sid]
+        try:
+            chk = model.check(s, wd, max_crash=1, name=sid + "_crash")
+        except model.Unsupported as ex:
+            return sid, None, str(ex)
+        dot = os.path.join(wd, "gc_" + "".join(c if c.isalnum() else "_" for c in sid))
+        graph = model.check(s, wd, max_crash=1, name=sid + "_crash", dump=dot)
+        return sid, (chk, graph, dot + ".dot"), None
+    with ThreadPoolExecutor(max_workers=8) as ex:
+        results = list(ex.map(one, ids))
+    for sid, r, why in results:
+        if r is None:
+            out["scenarios"][sid] = {"unsupported": why}
+            continue
+        chk, graph, dot = r
+        for x in (chk, graph):
+            if not x["ok"] and not x["violated"] and "Error" in x["out"]:
+                raise tlc.TLCError("Engine.tla (crash budget 1) failed on %s:\n%s" % (sid, x["out"][-2500:]))
+        out["states"] += chk["states"]
+        out["transitions"] += chk["generated"]
+        info = {"states": chk["states"], "invariants": "hold" if chk["ok"] else chk["violated"]}
+        if not chk["ok"] and chk["violated"]:
+            out["leads"].append({"scenario": sid, "invariant": chk["violated"]})
+        try:
+            paths, st = rp.replay_paths(base[sid], dot)
+            info.update(edges=st["edges"], paths=st["paths"])
+            for pth in paths:
+                add_model_run(base[sid], pth)
+                out["crash_points_replayed"] += len(pth.get("crashes", []))
+                if pth.get("unrealisable"):
+                    out["paths_cut_as_unrealisable_in_time"] = out.get("paths_cut_as_unrealisable_in_time", 0) + 1
+                elif pth["drift"] or not pth["followed"]:
+                    out["paths_with_drift"] += 1
+                    info.setdefault("drift_example", str(pth["drift"][:1])[:300])
+            out["paths"] += len(paths)
+        finally:
+            try:
+                os.remove(dot)
+            except OSError:
+                pass
+        out["scenarios"][sid] = info
+    return out
 
 
 def expect_events(twin):
@@ -138,6 +201,29 @@ def run(tier_name=None, replay=None):
                             continue
                         r = run_once(s, schedule=sched, crash={"frame": kf, "op": j}, **over)
                         add(s, r, twin, {"frame": kf, "op": j}, "first", False, sched, over)
+    def add_model_run(s, pth):
+        b = bws[k[0] % NB]
+        k[0] += 1
+        by_scn.setdefault(s["id"], s)
+        twin = twins.get(s["id"])
+        if twin is None:
+            twin = twins[s["id"]] = run_once(s)
+        inside = any("op" in c for c in pth.get("crashes", []))
+        ev = pth["events"] + [dict(e, strict=not inside) for e in expect_events(twin)]
+        tid = b.add_run(ev, s["id"])
+        meta[(b.path, tid)] = {"scenario": s["id"], "crash": pth.get("crashes"), "policy": "model path", "schedule": pth.get("labels", []), "over": {},
+                               "model_path": True}
+        counters["runs"] += 1
+        counters["model_paths"] += 1
+        if pth.get("crashes"):
+            counters["crashed"] += 1
+    twins = {}
+    base_all = {s["id"]: s for s in S.protocol_scenarios() + S.failure_scenarios()}
+    try:
+        mstats = crash_model_stage(thorough, base_all, work, add_model_run)
+    except tlc.TLCError as ex:
+        v.machinery_failure(str(ex)[:1500])
+        return v.finish()
     for b in bws:
         b.close()
     batches = [b.path for b in bws if b.lines]
@@ -165,9 +251,12 @@ def run(tier_name=None, replay=None):
                           "operation inside a handler), restart with redelivery, continuation to D1, validated by TLC against Trace.tla together with the outcome of its "
                           "crash-free twin; distinct = distinct (scenario, schedule, crash point, continuation order); non-trivial = the crash actually happened",
                   "samples": samples, "boundary_crashes": counters["boundary"], "continuation_orders_beyond_first_last": counters["continuations"], "in_handler_crashes": counters["inside"],
-                  "states": stats["states"], "transitions": stats["transitions"], "traces_validated_against_impl": counters["runs"],
+                  "states": stats["states"] + mstats["states"], "transitions": stats["transitions"] + mstats["transitions"], "traces_validated_against_impl": counters["runs"],
                   "failed_clauses": {"%s|%s|%s" % kk: n for kk, n in nfail.items()}, "exhaustive": True,
-                  "scenarios": sorted(by_scn), "tlc_cpu_s": stats["tlc_cpu_s"]}
+                  "scenarios": sorted(by_scn), "tlc_cpu_s": stats["tlc_cpu_s"],
+                  "crash_model": {"engine_states_all_crash_points_all_schedules": mstats["states"], "paths_replayed_into_real_engine": mstats["paths"],
+                                  "crash_points_replayed": mstats["crash_points_replayed"], "paths_with_drift": mstats["paths_with_drift"],
+                                  "invariant_leads": mstats["leads"], "per_scenario": mstats["scenarios"]}}
     v.assumptions = ["a crash loses the instance's volatile state and its connection; the broker requeues unacknowledged deliveries at the head, redelivered",
                      "file-backed configuration: execution records are volatile, so the verdict rests on the notifications",
                      "inside a handler only no-loss is required (the continuation may run twice)"]
